@@ -116,13 +116,16 @@ def dEnumVal (cls : String) (ms : List (String × PyVal)) (v : PyVal) : R PyVal 
     | some n => .ok (.enumv cls n)
     | none => .error .valueErr
 
-/-- `Enum.__set__` (by value or not): a member, a member NAME (converted), or - for a mixin enum -
-    anything `==` to a member (kept as it is) -/
+/-- `Enum.__set__` (by value or not): a member, a member NAME (converted); for a mixin enum anything `==` to
+    a member is accepted too and kept as it is (marked outside the model, see below) -/
 def vEnumVal (cls : String) (ms : List (String × PyVal)) (mixin : Bool) (v : PyVal) : R PyVal :=
   match v with
   | .str n => if (ms.map (·.1)).contains n then .ok (.enumv cls n) else .error .valueErr
   | .enumv c n => if c == cls && (ms.map (·.1)).contains n then .ok v else .error .valueErr
-  | w => if mixin && ms.any (fun m => pyEq w m.2) then .ok w else .error .valueErr
+  | w =>
+    -- kept as it is by the real code; the raw value is `==` to the member (True == Level.LOW), which the
+    -- model's `pyEq` does not know (a set or a uniqueItems scan holding both would collapse): not modelled
+    if mixin && ms.any (fun m => pyEq w m.2) then .error (.other "outside-model:mixin-raw-value") else .error .valueErr
 
 /-- the member values `Enum.serialize` lets through: bool / str / int / float -/
 def xScalarJson : PyVal → Bool
